@@ -24,7 +24,7 @@ Definition NS_PER_S : N := 1000000000.
 Definition U32_MAX : N := 4294967295.
 Definition DEFAULT_DESIRED_SIZE : N := 512.
 
-Definition tuples := list (rdata * N).                  (* Vec<(V, Instant)> *)
+Notation tuples := (list (rdata * N)) (only parsing).    (* Vec<(V, Instant)> *)
 
 Record partition := {
   p_last_read : N;
